@@ -398,7 +398,7 @@ func compute(tier string, seed int64, dir string) *Shared {
 						if v.Tag == "" {
 							run.Namesake[name] = append(run.Namesake[name], tf.Offset(d.Pos))
 						}
-						s.fail("C20", "C20/"+name+"/"+f20.Subject+"-namesake",
+						s.fail("C20", "C20/"+name+"/"+f20.Subject+"-namesake"+f20.Form,
 							fmt.Sprintf("%s reports %q at %s although the callee spelled %s resolves to %s", name, clip(d.Text, 120), posStr(d.Pos), f20.Spelled, f20.Resolves),
 							map[string]interface{}{"package": fr.pkg.Name, "file": fr.file.Name, "checker": v.String(), "position": posStr(d.Pos),
 								"text": d.Text, "line": sourceLine(fr.file, d), "resolves_to": f20.Resolves, "origin": fr.pkg.Origin})
